@@ -244,7 +244,9 @@ pub fn run_xt_full(bin: Bin, args: &[OsString], cwd: &Path, stdin: StdinSpec, st
             let _ = w.write_all(&b);
         }));
     }
+    let child_done = std::sync::Arc::new(std::sync::atomic::AtomicBool::new(false));
     for (path, content) in fifos {
+        let child_done = child_done.clone();
         threads.push(std::thread::spawn(move || {
             // Opening blocks until the child opens the FIFO for reading; give up
             // if the child never does (it may exit first): open non-blocking in
@@ -262,7 +264,8 @@ pub fn run_xt_full(bin: Bin, args: &[OsString], cwd: &Path, stdin: StdinSpec, st
                     let _ = f.write_all(&content);
                     break;
                 }
-                if start.elapsed() > Duration::from_secs(20) {
+                // the child is gone (it failed before it got to this input), or never opens it
+                if child_done.load(std::sync::atomic::Ordering::Relaxed) || start.elapsed() > Duration::from_secs(20) {
                     break;
                 }
                 std::thread::sleep(Duration::from_millis(1));
@@ -329,6 +332,7 @@ pub fn run_xt_full(bin: Bin, args: &[OsString], cwd: &Path, stdin: StdinSpec, st
             Err(_) => break None,
         }
     };
+    child_done.store(true, std::sync::atomic::Ordering::Relaxed);
     let mut stdout_bytes = stdout_thread.map(|t| t.join().unwrap_or_default()).unwrap_or_default();
     let stderr_bytes = stderr_thread.map(|t| t.join().unwrap_or_default()).unwrap_or_default();
     if let Some(t) = pty_thread {
